@@ -19,6 +19,7 @@ import (
 	"strconv"
 	"strings"
 	"sync"
+	"sync/atomic"
 	"testing"
 	"time"
 
@@ -338,6 +339,10 @@ func sub(name string) *subStats {
 	return s
 }
 
+// wedged is set once a case was abandoned as a hang: its goroutines are still alive and may hold
+// locks of shared state, so no further case of this process is started.
+var wedged atomic.Bool
+
 // exec runs one case, turning an uncaught panic into a Failure (an oracle that accepts panics
 // must recover them itself).
 func exec[C any](s Spec[C], c C, o *Obs) (f *Failure) {
@@ -371,6 +376,7 @@ func exec[C any](s Spec[C], c C, o *Obs) (f *Failure) {
 		*o = *r.o
 		return r.f
 	case <-time.After(extra):
+		wedged.Store(true)
 		return Failf("hang", "case did not return within %v (far beyond its normal cost); the call does not terminate", s.Deadline+extra)
 	}
 }
@@ -551,6 +557,9 @@ func Drive[C any](t *testing.T, s Spec[C]) {
 		mu.Unlock()
 		flush()
 	}()
+	if wedged.Load() {
+		return
+	}
 	if Replay != "" {
 		runFile(t, s, Replay, false)
 		return
@@ -560,6 +569,9 @@ func Drive[C any](t *testing.T, s Spec[C]) {
 		files, _ := filepath.Glob(filepath.Join(Dir, "regress", out.Meta.ID, s.Name, "*.json"))
 		sort.Strings(files)
 		for _, f := range files {
+			if wedged.Load() {
+				return
+			}
 			runFile(t, s, f, true)
 		}
 		mu.Lock()
@@ -609,14 +621,19 @@ func Drive[C any](t *testing.T, s Spec[C]) {
 			// confirm through the plain path; a case that no longer fails is schedule/map-order dependent
 			flaky := false
 			o := &Obs{}
-			if f := exec(s, lastCase, o); f == nil {
-				flaky = true
+			if !wedged.Load() { // after a hang nothing more is started in this process
+				if f := exec(s, lastCase, o); f == nil {
+					flaky = true
+				}
 			}
 			addViolation(violation{Sub: s.Name, Sig: lastFail.Sig, Msg: lastFail.Msg, Replay: p, Flaky: flaky})
 			fmt.Printf("VIOLATION-DETAIL %s/%s sig=%s replay=%s\n%s\n", out.Meta.ID, s.Name, lastFail.Sig, p, lastFail.Msg)
 		}()
 		rapid.Check(t, func(rt *rapid.T) {
 			c := s.Gen(rt)
+			if wedged.Load() {
+				return // a hang was reported: no shrinking, no further cases
+			}
 			o := &Obs{}
 			f := exec(s, c, o)
 			record(s, c, o, failCount == 0)
@@ -648,12 +665,15 @@ func Enumerate[C any](t *testing.T, s Spec[C], cases []C) {
 		mu.Unlock()
 		flush()
 	}()
+	if wedged.Load() {
+		return
+	}
 	if Replay != "" {
 		runFile(t, s, Replay, false)
 		return
 	}
 	for i, c := range cases {
-		if i%Shards != Shard {
+		if i%Shards != Shard || wedged.Load() {
 			continue
 		}
 		o := &Obs{}
